@@ -349,6 +349,7 @@ type engineOpts struct {
 	viaAtlas          bool      // create A through Atlas' own plan from the empty schema (no uniques then)
 	viaAtlasInspected bool      // ... and the desired state of that first apply is the inspected form of A (numeric fk symbols become constraint names)
 	fill              *nullFill // class set-notnull-default (notnull.go): the apply must succeed and the NULLs must hold the default
+	exported          bool      // the desired state is EvalHCLBytes(MarshalHCL(InspectSchema(real database created from the spec))) (exported.go): what `schema inspect` of another database printed
 }
 
 // engineCase runs one (A, B) pair on a real database; returns false when the case was unusable.
@@ -377,6 +378,13 @@ func (c *ctx) engineCase(a, b Schema, desc string, o engineOpts) {
 	var obs []string
 	add := func(s string) { obs = append(obs, s) }
 	desired := func() *schema.Schema {
+		if o.exported {
+			g, err := exportedDesired(b)
+			if err != nil {
+				panic(fmt.Sprintf("harness: desired spec cannot be exported: %v", err))
+			}
+			return g
+		}
 		if !o.inspected {
 			return build("sqlite", b)
 		}
@@ -391,6 +399,9 @@ func (c *ctx) engineCase(a, b Schema, desc string, o engineOpts) {
 	if o.updown {
 		op = "U "
 	}
+	if o.exported && o.withModel {
+		op = "X " // model mode `exported`: + the NB line
+	}
 	line := op + b01(o.fk) + " " + tokCase(fromSpec, a) + " " + strconv.Itoa(len(o.rows))
 	for _, r := range o.rows {
 		line += " " + hx(r.table) + " " + strconv.Itoa(r.rowid) + " " + strconv.Itoa(len(r.cols))
@@ -398,7 +409,7 @@ func (c *ctx) engineCase(a, b Schema, desc string, o engineOpts) {
 			line += " " + hx(r.cols[i]) + " " + r.vals[i]
 		}
 	}
-	if o.inspected {
+	if o.inspected || o.exported {
 		line += " " + tokCase(desired(), Schema{Name: b.Name})
 	} else {
 		line += " " + tokCase(build("sqlite", b), b)
@@ -447,7 +458,10 @@ func (c *ctx) engineCase(a, b Schema, desc string, o engineOpts) {
 		return
 	}
 	add("S0 ok")
-	ic := "input-class=" + classifyFor(a, b, o.inspected) + "; "
+	ic := "input-class=" + classifyFor(a, b, o.inspected || o.exported) + "; "
+	if o.exported {
+		ic = "input-class=" + joinClass(classifyFor(a, b, true), exportedClass(b)) + "; "
+	}
 	for _, r := range o.rows {
 		if err := l.exec(insertSQL(r, *a.table(r.table))); err != nil {
 			if !o.withModel && rowError(err) {
@@ -520,6 +534,9 @@ func (c *ctx) engineCase(a, b Schema, desc string, o engineOpts) {
 	default:
 		add("AP plan-err")
 	}
+	if o.exported && op == "X " && !strings.HasSuffix(obs[len(obs)-1], "plan-err") {
+		add("NB " + idxNames(des)) // diff.Normalize / state.addIndexes renamed the reserved index names of the desired graph in place
+	}
 	after, err := l.inspect()
 	if err != nil {
 		add("I1 err")
@@ -588,6 +605,10 @@ func (c *ctx) engineCase(a, b Schema, desc string, o engineOpts) {
 	if len(cs) > 0 {
 		c.w.NonTrivial(showSchemaChanges(cs, nil))
 	}
+	if o.exported && strings.HasPrefix(desc, "exported-grid:") && strings.HasSuffix(desc, ":same") && len(cs) > 0 { // grid only: random tables carry defaults the HCL document respells (C03's findings)
+		// D2 is D1 itself: its own export must not plan anything (FindGeneratedIndex has to find the renamed constraint index)
+		c.w.Violation(id, "exported-self-diff", ic+fmt.Sprintf("the unedited export of a database, applied to an identical database, is not a no-op: diff=%s [%s]", showSchemaChanges(cs, nil), desc))
+	}
 	if o.fill != nil {
 		if aerr != nil {
 			c.w.Violation(id, "notnull-default-failed", ic+fmt.Sprintf("a nullable column with a DEFAULT becomes NOT NULL on a table holding NULLs: the plan has to replace them by the default (IFNULL), but applying it fails: %v ; diff=%s [%s; table %s column %s]", aerr, showSchemaChanges(cs, nil), desc, o.fill.table, o.fill.col))
@@ -628,6 +649,9 @@ func (c *ctx) engineCase(a, b Schema, desc string, o engineOpts) {
 		}
 		// independent of the differ: the state itself
 		if fs := freshState(b); fs != nil {
+			if o.exported { // the HCL document writes the numeric literal +13 as 13 (C03's subject; the same value)
+				afterProj, fs = normSigned(afterProj), normSigned(fs)
+			}
 			if df := firstDiff(afterProj, fs); df != "" {
 				c.w.Violation(id, "state-differs", ic+fmt.Sprintf("apply succeeded and the second diff is empty, but the inspected database differs from the desired schema created from scratch: %s ; first diff=%s [%s]", df, showSchemaChanges(cs, nil), desc))
 			}
